@@ -402,6 +402,8 @@ impl Driver {
     }
 
     pub fn flush(&mut self) -> bool {
+        #[cfg(compio_verif)]
+        crate::verif::point("flush:enter");
         self.notify.reset()
     }
 
@@ -456,15 +458,25 @@ impl Driver {
         instrument!(compio_log::Level::TRACE, "poll", ?timeout);
         let timeout_is_some = timeout.is_some();
         let has_completed = !self.completed_rx.is_empty();
+        #[cfg(compio_verif)]
+        crate::verif::point("poll:before-reset");
         let need_wait = !self.notify.reset();
+        #[cfg(compio_verif)]
+        crate::verif::point("poll:after-reset");
         if !need_wait || has_completed {
             timeout = Some(Duration::ZERO);
         }
         // We need to poll the poller first to make sure it handles the internal notify
         // event (if any).
         self.events.clear();
+        #[cfg(compio_verif)]
+        crate::verif::point("poll:before-wait");
         self.notify.poll.wait(&mut self.events, timeout)?;
+        #[cfg(compio_verif)]
+        crate::verif::point("poll:after-wait");
         self.notify.set_awake();
+        #[cfg(compio_verif)]
+        crate::verif::point("poll:after-set-awake");
         if self.events.is_empty() {
             if self.poll_completed() {
                 return Ok(());
